@@ -108,7 +108,7 @@ class RunTest:
             if self._exceptions:
                 # One or more caught exceptions, now trigger the test's
                 # reporting method for just one.
-                e = self._exceptions.pop()
+                e = self._pick_exception()
                 for exc_class, handler in self.handlers:
                     if isinstance(e, exc_class):
                         handler(self.case, self.result, e)
@@ -119,6 +119,29 @@ class RunTest:
         finally:
             result.stopTest(self.case)
         return result
+
+    def _pick_exception(self):
+        """Choose the caught exception that decides the single outcome.
+
+        An exception that does not derive from ``Exception`` (such as
+        ``KeyboardInterrupt``) always wins, so that it is reported and
+        re-raised whatever later stages raised. Otherwise the last exception
+        that is not a skip or an expected failure wins, so that a skip raised
+        by a later stage can not mask an earlier failure or error.
+        """
+        from testtools.testcase import _ExpectedFailure
+
+        benign = (_ExpectedFailure,)
+        skip_exception = getattr(self.case, "skipException", None)
+        if skip_exception is not None:
+            benign += (skip_exception,)
+        for e in self._exceptions:
+            if not isinstance(e, Exception):
+                return e
+        for e in reversed(self._exceptions):
+            if not isinstance(e, benign):
+                return e
+        return self._exceptions[-1]
 
     def _run_core(self):
         """Run the user supplied test code."""
